@@ -118,7 +118,13 @@ def val (t : NumText) : Rat := (digitsVal t.ip : Rat) + fracVal t.fr
 
 def hasFrac (t : NumText) : Bool := t.fr.isSome
 
-def num (t : NumText) : Num := ⟨t.val, t.hasFrac⟩
+/-- the decimal mark of the text is a comma -/
+def isComma (t : NumText) : Bool :=
+  match t.fr with
+  | some (c, _) => c == ','
+  | none => false
+
+def num (t : NumText) : Num := ⟨t.val, t.hasFrac, t.isComma⟩
 
 end NumText
 
@@ -140,10 +146,10 @@ theorem parseNum_text (t : NumText) (wf : t.WF) (rest : List Char) (hr : headSat
     unfold parseNum
     simp only [NumText.text, fracText, List.append_nil, htd]
     cases rest with
-    | nil => simp [NumText.num, NumText.val, NumText.hasFrac, fracVal, Rat.add_zero]
+    | nil => simp [NumText.num, NumText.val, NumText.hasFrac, NumText.isComma, fracVal, Rat.add_zero]
     | cons c r =>
       have : isMark c = false := by simp [headSat, numEnd] at hr; exact hr.2
-      simp [this, NumText.num, NumText.val, NumText.hasFrac, fracVal, Rat.add_zero]
+      simp [this, NumText.num, NumText.val, NumText.hasFrac, NumText.isComma, fracVal, Rat.add_zero]
   | some mf =>
     obtain ⟨c, fd⟩ := mf
     obtain ⟨hmk, hfne, hfd⟩ := hfr
@@ -158,7 +164,7 @@ theorem parseNum_text (t : NumText) (wf : t.WF) (rest : List Char) (hr : headSat
     simp only [hmk, ↓reduceIte, htf]
     cases fd with
     | nil => exact absurd rfl hfne
-    | cons e es => simp [NumText.num, NumText.val, NumText.hasFrac, fracVal]
+    | cons e es => simp [NumText.num, NumText.val, NumText.hasFrac, NumText.isComma, fracVal]
 
 theorem NumText.text_skipWs (t : NumText) (wf : t.WF) (rest : List Char) :
     skipWs (t.text ++ rest) = t.text ++ rest := by
@@ -2196,7 +2202,7 @@ theorem parseNum_text_frac (t : NumText) (wf : t.WF) (hfr : t.fr.isSome = true) 
     simp only [hmk, ↓reduceIte, htf]
     cases fd with
     | nil => exact absurd rfl hfne
-    | cons e es => simp [NumText.num, NumText.val, NumText.hasFrac, fracVal]
+    | cons e es => simp [NumText.num, NumText.val, NumText.hasFrac, NumText.isComma, fracVal]
 
 /-- **a second decimal mark** directly behind a number that already has a fraction (`1.5.5`,
     `1,5,5s`, `2h 3.4.5m` …), after any well-formed beginning, whatever follows -/
